@@ -1564,6 +1564,8 @@ def to_poly(t, ring, atomize=None, width=None, memo=None):
                 return rec(x[3]) * Poly.const(1 << x[4][1], mod)
             if ring == 'int' and o == 'or' and x[4][0] == 'ci' and x[4][1] == 0:
                 return rec(x[3])
+            if ring == 'int' and o == 'xor' and x[4][0] == 'ci' and x[4][1] == (1 << x[4][2]) - 1 and x[4][2] > 1:
+                return Poly.const(-1, mod) - rec(x[3])         # ~a == -1 - a
         if h == 'cast':
             if ring == 'real' and x[1] in ('fpext', 'fptrunc', 'sitofp', 'uitofp'):
                 return rec(x[3])
